@@ -693,6 +693,11 @@ class SoapBasisOracle(Oracle):
         cur = Qprev
         single = max_iter <= 1
         n = Q.shape[0]
+        # sensitivity probe for chains: the same chain started from a basis perturbed at round-off level; where the two
+        # chains drift apart (near-degenerate eigenvalues: columns rotate freely inside an eigenspace) nothing can be
+        # decided about individual columns
+        pert = torch.cos(torch.arange(n * n, dtype=Q.dtype).reshape(n, n) * 1.7 + 0.3) * (100.0 * unit)
+        cur_b = torch.linalg.qr(Qprev + pert).Q if not single else None
         for j in range(max(1, max_iter)):
             M = L @ cur
             if single:
@@ -710,6 +715,11 @@ class SoapBasisOracle(Oracle):
                 return False, best
             if matched_c < n:
                 return True, -1.0  # undecidable from here on (counted by the caller as a skip)
+            cur_b = torch.linalg.qr(L @ cur_b).Q
+            c = (cur * cur_b).sum(dim=0).abs().clamp(max=1.0)
+            drift = float((1.0 - c * c).clamp(min=0.0).sqrt().max())
+            if drift > 0.02:
+                return True, -1.0  # the chain amplifies round-off: undecidable
         return False, best
 
 
@@ -932,7 +942,11 @@ class NormTransferOracle(Oracle):
                 rt = refmodel.RTOL[b.param.dtype]
                 # delta = W_new - W_pre is itself a rounded difference: its error is ~ u * |W| per element
                 round_off = spec.UNIT[b.param.dtype] * float(torch.linalg.vector_norm(pre["W"])) * 4
-                if not (sn > 1e-12 * max(gn, 1e-300)) or exp.amplification > 1e3 or gn == 0.0 or not math.isfinite(gn * lr):
+                fin = torch.finfo(b.param.dtype)
+                hi, lo = math.sqrt(fin.max) * 1e-3, math.sqrt(fin.tiny) * 1e3
+                in_range = all(lo < x < hi for x in (sn, gn, refmodel._amax(exp.shampoo_direction), refmodel._amax(exp.graft_direction)) if x > 0.0)
+                if not in_range or not (sn > 1e-12 * max(gn, 1e-300)) or exp.amplification > 1e3 or gn == 0.0 or not math.isfinite(gn * lr):
+                    # (norms whose squares leave the dtype's range overflow to inf / underflow to 0 in the rescale)
                     run.probes["norm_transfer_skip"] += 1
                     continue
                 # the implementation divides by (|P| + 1e-16): for a tiny Shampoo direction the transferred norm falls
